@@ -533,6 +533,15 @@ def run_probe(vseed, hashseed, names=(), rounds=40):
         return {"error": "unreadable probe output"}
 
 
+def run_probe_fresh(vseed, name, label, hashseed=0):
+    env = dict(os.environ, PYTHONPATH=REPO, PYTHONHASHSEED=str(hashseed), PYTHONDONTWRITEBYTECODE="1")
+    try:
+        p = subprocess.run([PY, PROBE_PY, str(vseed), "fresh", name, label], capture_output=True, text=True, env=env, timeout=120)
+        return json.loads(p.stdout) if p.returncode == 0 else {"error": p.stderr[-800:]}
+    except (subprocess.TimeoutExpired, ValueError) as e:
+        return {"error": repr(e)}
+
+
 def hashseed_probe(ck, seeds):
     """Directed programs (harness/c11_probe.py), each child interpreter under another PYTHONHASHSEED; byte identity."""
     vseed = ck.seed
@@ -564,6 +573,36 @@ def hashseed_probe(ck, seeds):
             if extra:
                 n += 1
                 ck.count(("probe-inprocess", name, hs))
+    # every attempt of the recompile programs against a FRESH object compiled once at that configuration in a fresh interpreter
+    pairs = []
+    for name, v in base.items():
+        if name.startswith("recompile_") and v[0] == "ok":
+            for label in sorted(set(a[0] for a in json.loads(v[1]))):
+                pairs.append((name, label))
+    with concurrent.futures.ThreadPoolExecutor(max_workers=NPROC) as ex:
+        fresh = dict(zip(pairs, ex.map(lambda nl: run_probe_fresh(vseed, nl[0], nl[1]), pairs)))
+    for hs, o in zip(seeds, outs):
+        if "error" in o:
+            continue
+        for name, v in o.items():
+            if not name.startswith("recompile_") or v[0] != "ok" or any(f["program"] == name for f in found):
+                continue
+            att = json.loads(v[1])
+            for k, (label, val) in enumerate(att):
+                fr = fresh.get((name, label))
+                if fr is None or isinstance(fr, dict):
+                    continue
+                n += 1
+                ck.count(("probe-vs-fresh", name, label, k, hs))
+                if val != fr:
+                    found.append({"kind": "recompile-differs", "program": name, "variant_seed": vseed, "hashseed": hs, "rounds": rounds,
+                                  "what_differs": "compilation #%d of one object (order %s) at %s differs from a fresh object compiled once at %s in a fresh interpreter" % (
+                                      k + 1, " ".join(a[0] for a in att[:k + 1]), label, label),
+                                  "first": fr, "later": val, "sequence": [a[0] for a in att], "attempt": k, "label": label})
+                    break
+    bad_fresh = [(nl, fr["error"]) for nl, fr in fresh.items() if isinstance(fr, dict)]
+    if bad_fresh:
+        ck.violation("fresh reference of a recompile program could not run: %r" % (bad_fresh[0],), {"kind": "probe-error", "error": repr(bad_fresh[:3])}, no_failing_input=True)
     for hs, o in zip(seeds[1:], outs[1:]):
         if "error" in o:
             ck.violation("hash-seed probe could not run under PYTHONHASHSEED=%s: %s" % (hs, o["error"]), {"kind": "probe-error", "error": o["error"]}, no_failing_input=True)
@@ -674,6 +713,14 @@ def replay(path):
         if extra.get("recompile_differs") or extra.get("variants", 1) > 1:
             print("VIOLATION property=C11 replay=%s" % path)
             return 1
+        if rp.get("label") is not None and v[0] == "ok":
+            fr = run_probe_fresh(rp["variant_seed"], rp["program"], rp["label"])
+            val = json.loads(v[1])[rp["attempt"]][1]
+            print("attempt #%d at %s:" % (rp["attempt"] + 1, rp["label"]), val[0], (val[1] or "")[:160].replace("\n", " | "))
+            print("fresh object      :", fr[0], (fr[1] or "")[:160].replace("\n", " | "))
+            if val != fr:
+                print("VIOLATION property=C11 replay=%s" % path)
+                return 1
         return 0
     if rp.get("kind") == "hashseed-differs":
         a = run_probe(rp["variant_seed"], rp["hashseed_a"], [rp["program"]])
@@ -753,7 +800,7 @@ def main(argv):
     t_phase["id_usage"] = round(time.time() - _t, 1)
     _t = time.time()
     # ---------------- implementation side (a): directed programs under several hash seeds ----------------
-    probe_seeds = [0, 1, 2, 3, 7, rng.randrange(8, 2**32 - 1)] + ([5, 11, 42, rng.randrange(8, 2**32 - 1), rng.randrange(8, 2**32 - 1)] if thorough else [])
+    probe_seeds = [0, 1, 2, 3, 7, 11, rng.randrange(12, 2**32 - 1)] + ([5, 13, 42, rng.randrange(8, 2**32 - 1), rng.randrange(8, 2**32 - 1)] if thorough else [])
     probe_found, probe_n = hashseed_probe(ck, probe_seeds)
     ck.coverage["hashseed_probe"] = {"hash_seeds": probe_seeds, "comparisons": probe_n, "differences": len(probe_found)}
     for f in probe_found[:4]:
